@@ -160,7 +160,7 @@ def __init__(self, source, filename=None, position=None):
         ln, col = position
         lines = source.splitlines() or ['']
         if ln > len(lines):
-            lines.append('')
+            lines.extend([''] * (ln - len(lines)))
         line = lines[ln-1]
         lines[ln-1] = line[:col] + SOURCE_MARK + line[col:]
         self.source = '\\n'.join(lines)
